@@ -555,7 +555,7 @@ func init() {
 	fw.Register(&fw.Prop{
 		ID:    "C09",
 		Level: "model_checking",
-		Rule:  "complete product: server configuration {no rule, common-name rule, rule + password} x client credential {none, plain-text bytes, self-signed, foreign CA, expired, right CA wrong name, right name only on an intermediate, right CA wrong name followed by a self-made certificate with the right name, valid} x handshake fault {complete, abort after ClientHello, stall, garbage} x placement {faulty client first; between two valid clients} x plain port {on, off} = 432 scenarios, plus 27 scenarios in which the server is given a ready tls.Config (SetTLSConfig) instead of certificate files, plus 216 'burst' scenarios in which the faulty client and the following valid client connect concurrently (their sockets can be accepted back to back). The server is configured through its public API and started with Start(); the REAL crypto/tls handshake runs on both sides over the in-memory transport under the cooperative scheduler (clients are tls.Client in harness threads). After the faulty client (and while a stalled one is still connected) a valid TLS client must complete handshake, GET and PING, and a plain client must PING; judged at quiescence, no timers. Quick: every schedule with at most one deviation from the default scheduler; thorough: two. Plus 36 scenarios in which the trusted CA is replaced between two runs of the server object and 12 in which the client under test keeps a TLS session cache and connects three times (resumed handshakes are judged like full ones).",
+		Rule:  "complete product: server configuration {no rule, common-name rule, rule + password} x client credential {none, plain-text bytes, self-signed, foreign CA, expired, right CA wrong name, right name only on an intermediate, right CA wrong name followed by a self-made certificate with the right name, valid} x handshake fault {complete, abort after ClientHello, stall, garbage} x placement {faulty client first; between two valid clients} x plain port {on, off} = 432 scenarios, plus 27 scenarios in which the server is given a ready tls.Config (SetTLSConfig) instead of certificate files, plus 216 'burst' scenarios in which the faulty client and the following valid client connect concurrently (their sockets can be accepted back to back). The server is configured through its public API and started with Start(); the REAL crypto/tls handshake runs on both sides over the in-memory transport under the cooperative scheduler (clients are tls.Client in harness threads). After the faulty client (and while a stalled one is still connected) a valid TLS client must complete handshake, GET and PING, and a plain client must PING; judged at quiescence, no timers. Quick: every schedule with at most one deviation from the default scheduler; thorough: two. Plus 36 scenarios in which the trusted CA is replaced between two runs of the server object and 12 in which the client under test keeps a TLS session cache and connects three times (resumed handshakes are judged like full ones). A refused client whose handshake completed or who sent garbage must have been disconnected by the server.",
 		Assumptions: []string{
 			"certificates are generated per run with crypto/x509 (ECDSA P-256); their random keys change bytes, not control flow",
 			"the in-memory transport stands for TCP; a stalled client is one that connects and never sends",
